@@ -6,3 +6,9 @@ import Norad.Props.C17
 #print axioms C17.partial_succeeds_if_full_does
 #print axioms C17.unrequested_files_not_read
 #print axioms C17.source_switches_match_model
+#print axioms C17.all_none_reset
+#print axioms C17.later_call_wins
+#print axioms C17.filter_then_default_keeps_predicate
+#print axioms C17.layers_after_filter
+#print axioms C17.call_idempotent
+#print axioms C17.part_call_touches_only_its_switch
